@@ -6,8 +6,8 @@ def register(m):
     m("C08", "c08-constant-as-product-ok", A, "APPROX_RELATIVE_TOLERANCE = 0.001", "APPROX_RELATIVE_TOLERANCE = 1 / 1000", "SILENT")
     m("C08", "c08-drop-im", A, "return im_condition and approx_equal_numbers(", "return approx_equal_numbers(", "A2")
     m("C08", "c08-or-instead-of-and", A, "return im_condition and approx_equal_numbers(", "return im_condition or approx_equal_numbers(", "A2")
-    m("C08", "c08-im-compared-with-re", A, "float(im(rhs.scale_factor)),", "float(re(rhs.scale_factor)),", "A2")
-    m("C08", "c08-lhs-compared-with-lhs", A, "float(re(rhs.scale_factor)),", "float(re(lhs.scale_factor)),", "A2")
+    m("C08", "c08-im-compared-with-re", A, "float(im(rhs_value)),", "float(re(rhs_value)),", "A2")
+    m("C08", "c08-lhs-compared-with-lhs", A, "float(re(rhs_value)),", "float(re(lhs_value)),", "A2")
     m("C08", "c08-skip-dimension-check", A,
       '    assert_equivalent_dimension(lhs, lhs.dimension.name, "approx_equal_quantities", rhs)\n',
       '    if dimension is not None:\n        assert_equivalent_dimension(lhs, lhs.dimension.name, "approx_equal_quantities", rhs)\n', "A1")
@@ -22,8 +22,8 @@ def register(m):
       "rhs_approx = approx(rhs, abs=absolute_tolerance)", "A4")
     m("C08", "c08-verdict-ge", A, "return lhs == rhs_approx", "return lhs >= rhs_approx or lhs == rhs_approx", "A4")
     m("C08", "c08-tolerance-not-forwarded", A,
-      "        float(re(rhs.scale_factor)),\n        relative_tolerance=relative_tolerance,",
-      "        float(re(rhs.scale_factor)),\n        relative_tolerance=None,", "A5")
+      "        float(re(rhs_value)),\n        relative_tolerance=relative_tolerance,",
+      "        float(re(rhs_value)),\n        relative_tolerance=None,", "A5")
     m("C08", "c08-abs-tolerance-as-rel", A,
       "        rhs,\n        relative_tolerance=relative_tolerance,\n        absolute_tolerance=absolute_tolerance,\n        dimension=dimension,\n    ), error_message()",
       "        rhs,\n        relative_tolerance=absolute_tolerance,\n        absolute_tolerance=absolute_tolerance,\n        dimension=dimension,\n    ), error_message()", "A5")
